@@ -13,6 +13,7 @@
 import Rsa.Lemmas.C10Sort
 import Rsa.Lemmas.C10RKeys
 import Rsa.Lemmas.C10Meas
+import Rsa.Lemmas.C10Order
 
 set_option linter.unusedSectionVars false
 set_option linter.unusedVariables false
@@ -938,5 +939,105 @@ example : resolveIdx 4 (.list [-1, 0]) = some [3, 0] := by decide +kernel
 example : ((cexStore[0]?).bind (fun a => (cexStore[1]?).bind (fun b => a.append b))).isSome = true := by
   decide +kernel
 example : (concatObjs cexStore none).isSome = true := by decide +kernel
+
+/-! ## 10. round 6 — descriptor dictionaries are finite maps: `append` does not see the insertion
+    order of either dictionary (`util/descriptor_utils.py: append_descriptor`) -/
+
+/-- the generated leaf: `append_descriptor` reads the appended dictionary as `desc_new[k]` for the
+    receiver's key `k` — by name (derived from the source on every run, fails closed) -/
+theorem appendByName_spec : Rsa.Gen.C10.appendByName = 1 := by decide
+
+/-- as coded (through the leaf), the column stacked under the receiver's key `k` is the appended
+    object's column of the same NAME -/
+theorem appendGet_by_name (recv arg : Desc) (k : String) : appendGet recv arg k = arg.get k := by
+  unfold appendGet
+  rw [if_pos appendByName_spec]
+
+/-- the rdm descriptors of an accepted `append` are the ones `append_descriptor` computes as coded
+    (`appendDesc`, which calls the leaf): the session model and the leaf cannot drift apart -/
+theorem append_rdesc_coded (o r o' : Obj α) (h : o.append r = some o') :
+    o'.rdesc = appendDesc o.rdesc r.rdesc (o.nRdm + r.nRdm) := by
+  unfold Obj.append at h
+  split at h
+  · simp only [Option.some.injEq] at h
+    subst h
+    simp only [appendDesc, appendGet_by_name]
+  · simp at h
+
+/-- `append`'s merged descriptors as a finite map: `index` is renumbered, every other key of the
+    receiver holds the receiver's column followed by the argument's column of the same name, and
+    no other key exists -/
+theorem appendDesc_lookup (recv arg : Desc) (total : Nat) (k : String) :
+    (appendDesc recv arg total).lookup k =
+      if k = "index" then some (rangeLbl total)
+      else (recv.lookup k).map (· ++ (arg.lookup k).getD []) := by
+  unfold appendDesc
+  rw [lookup_set]
+  have : (fun kv : String × List Lbl => (kv.1, kv.2 ++ (appendGet recv arg kv.1).getD []))
+      = (fun kv => (kv.1, kv.2 ++ (fun k => (arg.lookup k).getD []) kv.1)) := by
+    funext kv
+    simp only [appendGet_by_name, Desc.get]
+  rw [this, lookup_map_ext recv (fun k => (arg.lookup k).getD []) k]
+
+theorem keys_set (d : Desc) (k : String) (col : List Lbl) :
+    (d.set k col).keys = if d.has k then d.keys else d.keys ++ [k] := by
+  unfold Desc.set
+  split
+  · simp only [Desc.keys, List.map_map]
+    apply List.map_congr_left
+    intro kv _
+    simp only [Function.comp]
+    split
+    · rename_i h; exact h.symm
+    · rfl
+  · simp [Desc.keys]
+
+/-- **`append_desc_order_free`** — dictionaries are finite maps: permuting the insertion order of
+    the receiver's dictionary, of the appended object's dictionary, or of both, changes neither
+    the column found under any name after `append` nor the set of names (keys unique, as in a
+    `dict`).  Depends on the generated leaf `appendByName` (through `appendDesc_lookup`): a
+    positional pairing of the two dictionaries breaks this proof. -/
+theorem append_desc_order_free (recv recv' arg arg' : Desc) (total : Nat)
+    (pr : recv.Perm recv') (pa : arg.Perm arg') (nr : recv.keys.Nodup) (na : arg.keys.Nodup) :
+    (∀ k, (appendDesc recv' arg' total).lookup k = (appendDesc recv arg total).lookup k) ∧
+    (appendDesc recv' arg' total).keys.Perm (appendDesc recv arg total).keys := by
+  constructor
+  · intro k
+    rw [appendDesc_lookup, appendDesc_lookup, lookup_perm k pr nr, lookup_perm k pa na]
+  · unfold appendDesc
+    rw [keys_set, keys_set]
+    simp only [Desc.has, keys_map_ext]
+    have hk : recv.keys.Perm recv'.keys := pr.map _
+    have hc : recv'.keys.contains "index" = recv.keys.contains "index" := by
+      simp only [List.contains_eq_mem]
+      exact decide_eq_decide.mpr (hk.mem_iff).symm
+    rw [hc]
+    split
+    · exact hk.symm
+    · exact hk.symm.append_right _
+
+/-- the same on objects: two accepted `append`s whose receivers / arguments differ only in the
+    insertion order of their rdm-descriptor dictionaries leave the same descriptors, name by name -/
+theorem append_obj_order_free (o o2 r r2 res res2 : Obj α)
+    (pr : o.rdesc.Perm o2.rdesc) (pa : r.rdesc.Perm r2.rdesc) (nr : o.rdesc.keys.Nodup)
+    (na : r.rdesc.keys.Nodup) (hn : o.nRdm + r.nRdm = o2.nRdm + r2.nRdm)
+    (h : o.append r = some res) (h2 : o2.append r2 = some res2) (k : String) :
+    res2.rdesc.get k = res.rdesc.get k := by
+  rw [append_rdesc_coded o r res h, append_rdesc_coded o2 r2 res2 h2, ← hn]
+  exact (append_desc_order_free o.rdesc o2.rdesc r.rdesc r2.rdesc _ pr pa nr na).1 k
+
+/-- non-vacuity: dictionaries with the same names in another order (an explicit `index` first),
+    and what a positional pairing would have produced instead -/
+example :
+    let recv : Desc := [("subj", [.str "s7"]), ("roi", [.str "V1"]), ("index", [.int 0])]
+    let arg : Desc := [("index", [.int 0]), ("roi", [.str "V4"]), ("extra", [.int 1]), ("subj", [.str "s12"])]
+    recv.keys.Nodup ∧ arg.keys.Nodup ∧
+    (appendDesc recv arg 2).lookup "subj" = some [.str "s7", .str "s12"] ∧
+    (appendDesc recv arg 2).lookup "roi" = some [.str "V1", .str "V4"] ∧
+    (appendDesc recv arg 2).lookup "index" = some [.int 0, .int 1] ∧
+    (appendDesc recv arg 2).lookup "extra" = none ∧
+    ((arg[recv.keys.idxOf "subj"]?).map (·.2)) = some [.int 0] := by decide +kernel
+example : [("a", [Lbl.int 1]), ("b", [Lbl.int 2])].Perm [("b", [Lbl.int 2]), ("a", [Lbl.int 1])] :=
+  List.Perm.swap _ _ _
 
 end Rsa.Props.C10
